@@ -184,8 +184,14 @@ def expectations(cfg, ninst, script, horizon, first_offers):
             zlo, zhi = (y + rmin, y + rmax) if a["mc"] else (y, y)
             later_start = any(s2 > s and s2 <= zhi + RES for s2, _x2 in segs[k])
             if x is not None and x < zlo - RES:
-                if later_start or abs(x - y) <= RES:
-                    item(k, "offer", a["peer"], zlo, False, "answer after stop+restart / stop in the find's instant", hi=zhi)
+                if later_start:
+                    # stopped and started again before the answer is due: the new run may answer only once it has made its own
+                    # first offer - while it is still in its initial wait the old request stays unanswered like any other
+                    t0n = [t0s.get((k, n2)) for n2, (s2, _x2) in enumerate(segs[k]) if s2 > s and s2 <= zhi + RES]
+                    if any(q is not None and q <= zhi + ct + RES for q in t0n):
+                        item(k, "offer", a["peer"], zlo, False, "answer after stop+restart", hi=zhi)
+                elif abs(x - y) <= RES:
+                    item(k, "offer", a["peer"], zlo, False, "stop in the find's instant", hi=zhi)
                 continue
             if x is not None and x <= zhi + RES:
                 item(k, "offer", a["peer"], zlo, False, "stop inside the answer window", hi=zhi)
@@ -464,7 +470,8 @@ def placed(T, pl):
 
 PLACEMENTS = ("d-eps", "d:before", "d:after", "d+eps", "d-res")
 KINDS = ("ann_stop", "unannounce", "stop_restart", "find_uc", "find_mc", "find_mc_then_stop", "find_uc_and_stop", "stop_and_find_uc",
-         "stop_then_find", "lost_then_stop", "double_stop", "find_wild_mc", "late_stop", "find_uc_then_stop_in_window")
+         "stop_then_find", "lost_then_stop", "double_stop", "find_wild_mc", "late_stop", "find_uc_then_stop_in_window",
+         "find_mc_then_stop_restart")
 
 
 def find_action(k, mc, peer=PEER, wild=False):
@@ -524,6 +531,19 @@ def single_scenario(cfg, kind, j, pl):
     elif kind == "find_uc_and_stop":
         script.append((t, rank, find_action(0, False)))
         script.append((t, rank, dict(kind="unannounce", k=0)))
+    elif kind == "find_mc_then_stop_restart":
+        # the delayed answer to a multicast request is still pending when the instance is stopped AND started again: when it
+        # falls due the new run is (for most configurations) still in its initial wait and must stay silent
+        if d <= 0:
+            return None
+        script.append((t, rank, find_action(0, True)))
+        if j % 2:
+            script.append((t + d / 4, BEFORE, dict(kind="unannounce", k=0)))
+            script.append((t + d / 2, BEFORE, dict(kind="announce", k=0)))
+        else:
+            script.append((t + d / 4, BEFORE, dict(kind="ann_stop")))
+            script.append((t + d / 2, BEFORE, dict(kind="ann_start")))
+        tags.append("restart_inside_answer_window")
     elif kind == "find_uc_then_stop_in_window":
         # the answer is already waiting in the requester's send collector when the instance is stopped half a collection
         # window later: it still has to leave - ahead of the StopOffer, which may ride a multicast window that closes sooner
